@@ -8,10 +8,11 @@ measured-lock is consulted before the simulator is touched), C02 (returned bit =
 import re, os
 from tools import cxx2c
 from tools.cxx2c import Lower, Unsupported, kids, qt, qt_sugar, strip, strip_parens, callee_name, norm_type, walk
+from tools.cxx2c import REPO as _REPO
 from units.arith import find_region
 
 NAME = 'QEV'
-SRC = '/repo/src/bloch/runtime/runtime_evaluator.cpp'
+SRC = _REPO + '/src/bloch/runtime/runtime_evaluator.cpp'
 NAMESPACE = 'bloch::runtime'
 FUNCS = []
 AST_FILTER = ['RuntimeEvaluator::eval', 'RuntimeEvaluator::exec', 'bloch::runtime::Value']
@@ -66,7 +67,7 @@ class Profile(Lower):
             self.lit_id(g)
 
     def gate_table(self, workdir):
-        docs = cxx2c.ast_dump('/repo/src/bloch/compiler/semantics/built_ins.cpp', ['builtInGates'], workdir)
+        docs = cxx2c.ast_dump(_REPO + '/src/bloch/compiler/semantics/built_ins.cpp', ['builtInGates'], workdir)
         vs = [d for d in docs if d.get('kind') == 'VarDecl' and d.get('name') == 'builtInGates' and kids(d)]
         if len(vs) != 1:
             raise Unsupported('builtInGates: %d definitions' % len(vs))
